@@ -84,7 +84,7 @@ class FilePiece {
     char peek() {
       if (position_ == position_end_) {
         Shift();
-        if (at_end_) throw EndOfFileException();
+        if (position_ == position_end_) throw EndOfFileException();
       }
       return *position_;
     }
